@@ -210,6 +210,14 @@ impl<'a> Ctx<'a> {
     /// a panic inside a monitored call where the oracle expected a value
     pub fn panic_violation(&mut self, what: &str, p: &PanicInfo) {
         let site = bmv_core::util::panic_site(p);
+        if p.0.contains("harness:") {
+            // an assertion of the harness itself fired inside the guarded call: a defect of the
+            // machinery, never a statement about block-modes (-> inconclusive)
+            if self.st.harness_errors.len() < 20 {
+                self.st.harness_errors.push(format!("harness assertion inside a monitored call ({}, cfg {}, case_seed {}): {}", what, self.cfg.name, self.case_seed, site));
+            }
+            return;
+        }
         self.violation(&format!("{}/panic/{}", self.prop, what), format!("{} panicked: {}", what, site));
     }
     pub fn sample(&mut self) {
